@@ -1,59 +1,17 @@
-(* UrlQuoteFacts.v -- proofs about the URI quoting helpers (C12): for every URL string without a
-   backslash or newline character, helper.uri writes a text whose first token is the URI token
-   spanning exactly that text, and helper.urivalue / _uritokenvalue read the original string back
-   from the token value.  The URI production is taken apart structurally (re_URI_shape, by
-   reflexivity against the regenerated Gen/Productions.v); character-class facts that depend on the
+(* UrlQuoteFacts.v -- proofs about the URI quoting helpers (C12): for every URL string that
+   helper.string can represent (CssV.QuoteFacts.representable: any code points, backslashes and
+   newline characters included, except a backslash run of odd length directly before a double quote
+   and a backslash directly before a newline character), helper.uri writes a text whose first token
+   is the URI token spanning exactly that text, and helper.urivalue / _uritokenvalue read the
+   original string back from the token value.  The URI production is taken apart structurally
+   (re_URI_shape, by reflexivity against the regenerated Gen/Productions.v); its quoted body is the
+   string body of the STRING production (re_SC_is_body_dq), so C03's lemmas about helper.string
+   (body_iter, unicodesub_loop, replace_loop) are reused; character-class facts that depend on the
    regenerated tables are finite checks by vm_compute.                                          *)
-From CssV Require Import Base Regex RegexFacts Gen.Productions Gen.TokTables Gen.PyTables Tokenizer TokenizerFacts Gen.UrlQuote UrlQuote.
-
-(* the property's URL strings: anything but a backslash and the newline characters \n \r \f *)
-Definition UrlChars (v : str) : Prop :=
-  forall c, In c v -> c <> 92%N /\ c <> 10%N /\ c <> 13%N /\ c <> 12%N.
-
-Lemma UrlChars_cons c v : UrlChars (c :: v) -> (c <> 92 /\ c <> 10 /\ c <> 13 /\ c <> 12)%N /\ UrlChars v.
-Proof. intros H. split; [apply H; left; reflexivity|]. intros x Hx. apply H. right. exact Hx. Qed.
+From CssV Require Import Base Regex RegexFacts Gen.Productions Gen.TokTables Gen.PyTables Tokenizer TokenizerFacts
+  Quote Gen.Quote QuoteFacts Gen.UrlQuote UrlQuote.
 
 (* ------------------------------------------------------------------ str library *)
-Lemma replace_fuel_nil fuel a b : replace_fuel fuel a b [] = [].
-Proof. destruct fuel; reflexivity. Qed.
-
-Lemma replace1_fuel q b : forall fuel t, (length t < fuel)%nat ->
-  replace_fuel fuel [q] b t = flat_map (fun c => if N.eqb q c then b else [c]) t.
-Proof.
-  induction fuel as [|f IH]; intros t Hf; [lia|]. destruct t as [|c t']; [reflexivity|].
-  cbn [replace_fuel starts flat_map length skipn]. rewrite andb_true_r.
-  simpl in Hf. destruct (N.eqb q c); rewrite IH by lia; reflexivity.
-Qed.
-Lemma replace1 q b t : replace [q] b t = flat_map (fun c => if N.eqb q c then b else [c]) t.
-Proof. unfold replace. apply replace1_fuel. lia. Qed.
-
-Lemma flat_map_absent q b t : ~ In q t -> flat_map (fun c => if N.eqb q c then b else [c]) t = t.
-Proof.
-  induction t as [|c t IH]; intros H; [reflexivity|]. simpl.
-  destruct (N.eqb_spec q c) as [->|_]; [exfalso; apply H; left; reflexivity|].
-  simpl. f_equal. apply IH. intros Hin. apply H. right. exact Hin.
-Qed.
-
-(* the double quote written as backslash + double quote *)
-Definition esc (v : str) : str := flat_map (fun c => if N.eqb 34 c then [92%N; 34%N] else [c]) v.
-
-Lemma esc_no_trailing_bs v : ~ In 92%N v -> ends_with [92%N] (esc v) = false.
-Proof.
-  unfold ends_with. cbn [rev app]. induction v as [|c v IH] using rev_ind; intros H; [reflexivity|].
-  unfold esc. rewrite flat_map_app. cbn [flat_map]. rewrite app_nil_r, rev_app_distr.
-  destruct (N.eqb 34 c); cbn [rev app starts]; [reflexivity|].
-  destruct (N.eqb_spec 92 c) as [<-|_]; [exfalso; apply H, in_or_app; right; left; reflexivity|reflexivity].
-Qed.
-
-Lemma hstring_urlchars v : UrlChars v -> hstring v = 34%N :: esc v ++ [34%N].
-Proof.
-  intros H. unfold hstring, string_replaces. cbn [fold_left fst snd]. rewrite !replace1.
-  rewrite (flat_map_absent 10 _ v) by (intros Hin; apply H in Hin; tauto).
-  rewrite (flat_map_absent 13 _ v) by (intros Hin; apply H in Hin; tauto).
-  rewrite (flat_map_absent 12 _ v) by (intros Hin; apply H in Hin; tauto).
-  fold (esc v). change string_tail with [92%N].
-  rewrite esc_no_trailing_bs by (intros Hin; apply H in Hin; tauto). reflexivity.
-Qed.
 
 Lemma lstrip_nonspace c t : is_space c = false -> lstrip (c :: t) = c :: t.
 Proof. intros H. simpl. rewrite H. reflexivity. Qed.
@@ -83,30 +41,6 @@ Proof.
   rewrite skipn_app, <- Ha, skipn_all, Nat.sub_diag. cbn [skipn app].
   replace (length a + (length body + e) - e - length a)%nat with (length body + 0)%nat by lia.
   rewrite firstn_app_2. cbn [firstn]. apply app_nil_r.
-Qed.
-
-(* ------------------------------------------------------------------ unquoting *)
-Lemma unescape_fuel : forall v fuel, ~ In 92%N v -> (length (esc v) + 1 < fuel)%nat ->
-  replace_fuel fuel [92%N; 34%N] [34%N] (esc v ++ [34%N]) = v ++ [34%N].
-Proof.
-  induction v as [|c v IH]; intros fuel H Hf.
-  - destruct fuel as [|f]; [simpl in Hf; lia|]. cbn. rewrite replace_fuel_nil. reflexivity.
-  - destruct fuel as [|f]; [lia|]. unfold esc in *. cbn [flat_map] in *.
-    assert (Hv : ~ In 92%N v) by (intros Hin; apply H; right; exact Hin).
-    destruct (N.eqb_spec 34 c) as [<-|Hc].
-    + cbn [app replace_fuel starts length skipn]. cbn [N.eqb Pos.eqb andb]. cbn [app].
-      f_equal. apply IH; [exact Hv|]. cbn [app length] in Hf. lia.
-    + cbn [app replace_fuel starts]. 
-      destruct (N.eqb_spec 92 c) as [<-|_]; [exfalso; apply H; left; reflexivity|].
-      cbn [andb]. f_equal. apply IH; [exact Hv|]. cbn [app length] in Hf. lia.
-Qed.
-
-Lemma unquote_hstring v lo hi : ~ In 92%N v -> lo = 1%nat -> hi = 1%nat ->
-  unquote 92 lo hi (34%N :: esc v ++ [34%N]) = Some v.
-Proof.
-  intros H -> ->. unfold unquote, replace. cbn [replace_fuel starts N.eqb Pos.eqb andb].
-  rewrite unescape_fuel; [|exact H|cbn [length]; rewrite app_length; simpl; lia].
-  f_equal. apply (slice_mid [34%N] v [34%N]); reflexivity.
 Qed.
 
 (* ------------------------------------------------------------------ generic matcher facts *)
@@ -200,17 +134,8 @@ Definition sc_ranges := Eval vm_compute in match re_SC with Alt (Cls true rs) _ 
 Definition uc_ranges := Eval vm_compute in match re_UC with Alt (Cls false rs) _ => rs | _ => [] end.
 Definition na_ranges := Eval vm_compute in match re_UC with Alt _ (Alt (Cls true rs) _) => rs | _ => [] end.
 
-Lemma SC_plain {R} c p t (k : cont R) :
-  in_ranges c sc_ranges = false -> c <> 92%N -> m re_SC p (c :: t) k = k (Some c) t.
-Proof.
-  intros H Hb. unfold sc_ranges in H. unfold re_SC. cbn [m].
-  match goal with |- context [in_ranges c ?l] => change (in_ranges c l) with false || rewrite H end. cbn [xorb].
-  destruct (N.eqb_spec c 92); [contradiction|]. destruct (k (Some c) t); reflexivity.
-Qed.
-Lemma SC_escq {R} p t (k : cont R) : m re_SC p (92%N :: 34%N :: t) k = k (Some 34%N) t.
-Proof. unfold re_SC. cbn. destruct (k (Some 34%N) t); reflexivity. Qed.
-Lemma SC_stop {R} p t (k : cont R) : m re_SC p (34%N :: t) k = None.
-Proof. unfold re_SC. cbn. reflexivity. Qed.
+Lemma re_SC_is_body_dq : re_SC = body_dq.
+Proof. reflexivity. Qed.
 
 Lemma UC_plain {R} c p t (k : cont R) :
   (in_ranges c uc_ranges = true \/ in_ranges c na_ranges = false) -> c <> 92%N ->
@@ -344,32 +269,15 @@ Proof.
   - lia.
 Qed.
 
-Definition esc_unit (c : N) : str := if N.eqb 34 c then [92%N; 34%N] else [c].
-Lemma esc_units v : concat (map esc_unit v) = esc v.
-Proof. unfold esc. rewrite flat_map_concat_map. reflexivity. Qed.
-
-Lemma sc_plain_char c : c <> 92%N -> c <> 10%N -> c <> 13%N -> c <> 12%N -> c <> 34%N -> in_ranges c sc_ranges = false.
-Proof.
-  intros. apply in_ranges_false_intro. intros lo hi Hin. unfold sc_ranges in Hin.
-  repeat (destruct Hin as [Hin|Hin]; [injection Hin as <- <-; lia|]). destruct Hin.
-Qed.
-
+(* the quoted body: C03's body_iter, the closing quote, then the tail *)
 Lemma body_quoted {R} v follow p (kf : cont R) r :
-  UrlChars v -> (forall p', kf p' follow = Some r) ->
-  m re_BODY p (34%N :: esc v ++ 34%N :: 41%N :: follow) (fun p' t' => m re_TAIL p' t' kf) = Some r.
+  representable v -> (forall p', kf p' follow = Some r) ->
+  m re_BODY p (34%N :: hstring_loop SN v ++ 34%N :: 41%N :: follow) (fun p' t' => m re_TAIL p' t' kf) = Some r.
 Proof.
-  intros Hv Hk. unfold re_BODY. rewrite !m_alt, m_cat, m_chr_hit, m_cat, m_rep.
-  rewrite <- esc_units.
-  rewrite rep_iter_units with (r := r); [reflexivity| | | |].
-  - intros p0 k'. apply SC_stop.
-  - intros p0. rewrite m_chr_hit. rewrite tail_step. apply Hk.
-  - apply Forall_forall. intros u Hu. apply in_map_iff in Hu as (c & <- & Hc). unfold esc_unit.
-    destruct (N.eqb_spec 34 c) as [<-|Hq].
-    + split; [discriminate|]. intros p0 t k'. exists (Some 34%N). apply SC_escq.
-    + split; [discriminate|]. intros p0 t k'. exists (Some c). cbn [app].
-      destruct (Hv c Hc) as (Hb & Hn & Hr & Hff).
-      apply SC_plain; [apply sc_plain_char; auto|exact Hb].
-  - cbn [length]. lia.
+  intros Hv Hk. unfold re_BODY. rewrite !m_alt, m_cat, m_chr_hit, m_cat, m_rep, re_SC_is_body_dq.
+  pose proof (body_iter R (fun p0 t0 => m (Chr 34) p0 t0 (fun p' t' => m re_TAIL p' t' kf)) r (41%N :: follow)) as Hi.
+  rewrite (Hi (fun p0 => eq_trans (m_chr_hit 34 p0 _ _) (eq_trans (tail_step _ _ _) (Hk _))) v SN Hv); [reflexivity|].
+  cbn [pre app]. lia.
 Qed.
 
 Definition url4 : str := [117%N; 114%N; 108%N; 40%N].
@@ -450,48 +358,6 @@ Lemma tokenize_uri4 dc fs x n :
              Some (mkTok (s "URI") (firstn n (url4 ++ x)) (unicodesub (firstn n (url4 ++ x))) 1 1 :: ts).
 Proof. exact (tokenize_uri dc fs ([114%N; 108%N; 40%N] ++ x) n). Qed.
 
-(* ------------------------------------------------------------------ unicodesub leaves backslash-quote alone *)
-Fixpoint okbs (t : str) : Prop :=
-  match t with
-  | [] => True
-  | x :: r => (x = 92%N -> exists r', r = 34%N :: r') /\ okbs r
-  end.
-
-Lemma unicodesub_bsq_none prev r : rmatch re_unicodesub prev (92%N :: 34%N :: r) = None.
-Proof. unfold rmatch, re_unicodesub. rewrite m_cat, m_chr_hit, m_cat, m_rep. cbn [rep_iter length m in_ranges]. reflexivity. Qed.
-
-Lemma sub_all_okbs f : forall fuel prev t, okbs t -> sub_all_fuel fuel re_unicodesub f prev t = t.
-Proof.
-  induction fuel as [|fu IH]; intros prev t H; [reflexivity|]. destruct t as [|x t']; [reflexivity|].
-  cbn [sub_all_fuel]. destruct H as [H1 H2].
-  assert (E : rmatch re_unicodesub prev (x :: t') = None).
-  { destruct (N.eq_dec x 92) as [->|Hx].
-    - destruct (H1 eq_refl) as [r' ->]. apply unicodesub_bsq_none.
-    - unfold re_unicodesub. apply rmatch_bs_none. exact Hx. }
-  rewrite E. f_equal. apply IH. exact H2.
-Qed.
-
-Lemma okbs_nobs t : ~ In 92%N t -> okbs t.
-Proof.
-  induction t as [|x t IH]; intros H; [exact I|]. split.
-  - intros ->. exfalso. apply H. left. reflexivity.
-  - apply IH. intros Hin. apply H. right. exact Hin.
-Qed.
-Lemma okbs_app_nobs a b : ~ In 92%N a -> okbs b -> okbs (a ++ b).
-Proof.
-  induction a as [|x a IH]; intros H Hb; [exact Hb|]. cbn [app]. split.
-  - intros ->. exfalso. apply H. left. reflexivity.
-  - apply IH; [intros Hin; apply H; right; exact Hin|exact Hb].
-Qed.
-Lemma okbs_esc v b : ~ In 92%N v -> okbs b -> okbs (esc v ++ b).
-Proof.
-  induction v as [|c v IH]; intros H Hb; [exact Hb|]. unfold esc. cbn [flat_map].
-  assert (Hv : ~ In 92%N v) by (intros Hin; apply H; right; exact Hin).
-  destruct (N.eqb_spec 34 c) as [<-|Hq]; cbn [app].
-  - split; [intros _; eauto|]. split; [discriminate|]. apply IH; assumption.
-  - split; [|apply IH; assumption]. intros ->. exfalso. apply H. left. reflexivity.
-Qed.
-
 (* ------------------------------------------------------------------ reading the value back *)
 Lemma inner_url4 body : inner 40 1 1 (url4 ++ body ++ [41%N]) = strip body.
 Proof.
@@ -507,6 +373,7 @@ Proof.
   rewrite firstn_app, firstn_all, Nat.sub_diag. cbn [firstn]. apply app_nil_r.
 Qed.
 
+
 (* what "the URL v survives output" means for one serialised url(...) followed by any text:
    the tokenizer's first token is the URI token spanning exactly helper.uri(v), and both readers of
    that token's value (helper.urivalue for declaration values, _uritokenvalue for @import) return v *)
@@ -514,54 +381,59 @@ Definition survives (v : str) : Prop :=
   forall dc fs follow, exists t ts,
     tokenize dc fs (huri v ++ follow) = Some (t :: ts) /\
     ty t = s "URI" /\ raw t = huri v /\ line t = 1%nat /\ col t = 1%nat /\
-    urivalue (val t) = Some v /\ uritokenvalue (val t) = Some v.
+    urivalue (val t) = Ok v /\ uritokenvalue (val t) = Ok v.
 
 Lemma huri_bare v : forbidden v = false -> huri v = url4 ++ v ++ [41%N].
 Proof. intros H. unfold huri. rewrite H. reflexivity. Qed.
-Lemma huri_quoted v : UrlChars v -> forbidden v = true -> huri v = url4 ++ (34%N :: esc v ++ [34%N]) ++ [41%N].
-Proof. intros Hv H. unfold huri. rewrite H, (hstring_urlchars v Hv). reflexivity. Qed.
+Lemma huri_quoted v : forbidden v = true -> huri v = url4 ++ (34%N :: hstring_loop SN v ++ [34%N]) ++ [41%N].
+Proof. intros H. unfold huri. rewrite H, hstring_unfold. reflexivity. Qed.
 
-Lemma survives_body v body :
+(* body = what is written between url( and ), vbody = the same part of the token value (after unicodesub) *)
+Lemma survives_body v body vbody :
   huri v = url4 ++ body ++ [41%N] ->
   (forall follow prev, rmatch re_URI prev (url4 ++ body ++ 41%N :: follow) = Some (length (url4 ++ body ++ [41%N]))) ->
-  okbs body ->
-  (strip body = body) ->
-  (if quoted [39%N; 34%N] body then unquote 92 1 1 body else Some body) = Some v ->
+  unicodesub (url4 ++ body ++ [41%N]) = url4 ++ vbody ++ [41%N] ->
+  strip vbody = vbody ->
+  (if quoted [39%N; 34%N] vbody then
+     match py_index0 vbody with
+     | Crash => Crash
+     | Ok q => Ok (py_slice_nn 1 1 (py_replace vbody [92%N; q] [q]))
+     end
+   else Ok vbody) = Ok v ->
   survives v.
 Proof.
-  intros Hh Hm Hok Hstrip Hval dc fs follow. rewrite Hh.
+  intros Hh Hm Hu Hstrip Hval dc fs follow. rewrite Hh.
   replace ((url4 ++ body ++ [41%N]) ++ follow) with (url4 ++ body ++ 41%N :: follow)
     by (rewrite <- !app_assoc; reflexivity).
   destruct (tokenize_uri4 dc fs _ _ (Hm follow None)) as [ts Hts].
   rewrite firstn_found in Hts.
   eexists _, ts. split; [exact Hts|]. cbn [ty raw val line col].
-  assert (Hu : unicodesub (url4 ++ body ++ [41%N]) = url4 ++ body ++ [41%N]).
-  { unfold unicodesub, sub_all. apply sub_all_okbs. apply okbs_app_nobs.
-    { unfold url4. cbn [In]. intros [E|[E|[E|[E|[]]]]]; discriminate E. }
-    clear -Hok. induction body as [|x b IH]; cbn [app].
-    - split; [discriminate|exact I].
-    - destruct Hok as [H1 H2]. split; [|apply IH; exact H2].
-      intros E. destruct (H1 E) as [r' Hr']. rewrite Hr'. eexists. reflexivity. }
   rewrite Hu. repeat split; try reflexivity.
   - unfold urivalue. change urivalue_paren with 40%N. change urivalue_off with 1%nat. change urivalue_end with 1%nat.
-    rewrite inner_url4, Hstrip. change urivalue_quotes with [39%N; 34%N]. unfold stringvalue.
-    change stringvalue_esc with 92%N. change stringvalue_lo with 1%nat. change stringvalue_hi with 1%nat. exact Hval.
+    rewrite inner_url4, Hstrip. change urivalue_quotes with [39%N; 34%N]. unfold hstringvalue. exact Hval.
   - unfold uritokenvalue. change uritoken_paren with 40%N. change uritoken_off with 1%nat. change uritoken_end with 1%nat.
     rewrite inner_url4, Hstrip. change uritoken_quotes with [39%N; 34%N].
     change uritoken_esc with 92%N. change uritoken_lo with 1%nat. change uritoken_hi with 1%nat. exact Hval.
 Qed.
 
-Theorem uri_bare_lemma v : ~ In 92%N v -> forbidden v = false -> survives v.
+Lemma forb_bs : in_ranges 92 forb_ranges = true.
+Proof. vm_compute. reflexivity. Qed.
+
+Theorem uri_bare_lemma v : forbidden v = false -> survives v.
 Proof.
-  intros Hb Hf. pose proof (forbidden_false v Hf) as Hc.
+  intros Hf. pose proof (forbidden_false v Hf) as Hc.
+  assert (Hb : ~ In 92%N v).
+  { intros Hin. apply Hc in Hin. rewrite forb_bs in Hin. discriminate. }
   assert (Hbare : forall c, In c v -> bare c).
   { intros c Hin. split; [apply Hc, Hin|]. intros ->. contradiction. }
-  apply (survives_body v v).
+  apply (survives_body v v v).
   - apply huri_bare, Hf.
   - intros follow prev. apply uri_match_body.
     + intros R p kf r Hk. apply body_bare; assumption.
     + intros c r ->. apply bare_not_ws, Hc. left. reflexivity.
-  - apply okbs_nobs, Hb.
+  - apply unicodesub_nobs. unfold url4. intros Hin. apply in_app_or in Hin as [Hin|Hin].
+    + cbn [In] in Hin. destruct Hin as [E|[E|[E|[E|[]]]]]; discriminate E.
+    + apply in_app_or in Hin as [Hin|[E|[]]]; [contradiction|discriminate E].
   - apply strip_ends.
     + intros c r ->. apply bare_not_space, Hc. left. reflexivity.
     + intros r d ->. apply bare_not_space, Hc, in_or_app. right. left. reflexivity.
@@ -571,37 +443,46 @@ Proof.
     destruct (N.eqb_spec 34 q) as [<-|_]; [rewrite (proj1 forb_consts) in Hq; discriminate|]. reflexivity.
 Qed.
 
-Theorem uri_quoted_lemma v : UrlChars v -> forbidden v = true -> survives v.
+Theorem uri_quoted_lemma v : representable v -> forbidden v = true -> survives v.
 Proof.
   intros Hv Hf.
-  assert (Hb : ~ In 92%N v) by (intros Hin; apply Hv in Hin; tauto).
-  apply (survives_body v (34%N :: esc v ++ [34%N])).
+  apply (survives_body v (34%N :: hstring_loop SN v ++ [34%N]) (34%N :: bloop SN v ++ [34%N])).
   - apply huri_quoted; assumption.
   - intros follow prev. apply uri_match_body.
     + intros R p kf r Hk. cbn [app]. rewrite <- app_assoc. cbn [app]. apply body_quoted; assumption.
     + intros c r E. injection E as <- _. reflexivity.
-  - split; [discriminate|]. apply okbs_esc; [exact Hb|]. split; [discriminate|exact I].
+  - unfold unicodesub, sub_all, url4. cbn [app]. rewrite <- !app_assoc. cbn [app].
+    assert (Utl : Us [34%N; 41%N] [34%N; 41%N]) by (repeat (apply Us_plain; [discriminate|]); apply Us_nil).
+    assert (HU : Us (117 :: 114 :: 108 :: 40 :: 34 :: hstring_loop SN v ++ [34; 41])%N
+                    (117 :: 114 :: 108 :: 40 :: 34 :: bloop SN v ++ [34; 41])%N).
+    { do 5 (apply Us_plain; [discriminate|]).
+      apply unicodesub_loop; [exact Utl| |exact Hv]. exists 34%N, [41%N]. split; reflexivity. }
+    apply HU. lia.
   - apply strip_nonspace; reflexivity.
   - unfold quoted. cbn [mem N.eqb Pos.eqb orb andb].
-    change (34%N :: esc v ++ [34%N]) with ((34%N :: esc v) ++ [34%N]). rewrite last_last. cbn [N.eqb Pos.eqb].
-    cbn [app]. apply unquote_hstring; [exact Hb|reflexivity|reflexivity].
+    change (34%N :: bloop SN v ++ [34%N]) with ((34%N :: bloop SN v) ++ [34%N]). rewrite last_last. cbn [N.eqb Pos.eqb].
+    cbn [app py_index0]. unfold py_replace. cbn [length].
+    rewrite (Rp_plain 34 (bloop SN v ++ [34%N]) (v ++ [34%N])); [|discriminate|apply (replace_loop v SN Hv)|cbn [length]; lia].
+    rewrite py_slice_1_1. reflexivity.
 Qed.
 
-Theorem uri_roundtrip_lemma v : UrlChars v -> survives v.
+(* every value helper.string can represent survives; which form helper.uri chooses does not matter *)
+Theorem uri_roundtrip_lemma v : representable v -> survives v.
 Proof.
   intros Hv. destruct (forbidden v) eqn:E.
   - apply uri_quoted_lemma; assumption.
-  - apply uri_bare_lemma; [|exact E]. intros Hin. apply Hv in Hin. tauto.
+  - apply uri_bare_lemma. exact E.
 Qed.
 
-(* helper.uri never quotes needlessly on the property's set and always quotes what needs it *)
-Lemma huri_quotes_iff v : forbidden v = true \/ huri v = url4 ++ v ++ [41%N].
-Proof. destruct (forbidden v) eqn:E; [left; reflexivity|right; apply huri_bare, E]. Qed.
+(* the property's own set (no backslash, no newline character) is inside the representable values *)
+Definition UrlChars (v : str) : Prop :=
+  forall c, In c v -> c <> 92%N /\ c <> 10%N /\ c <> 13%N /\ c <> 12%N.
+Lemma UrlChars_representable v : UrlChars v -> representable v.
+Proof. intros H. apply nobs_representable. intros Hin. apply H in Hin. tauto. Qed.
 
-(* @import "..." : helper.string and _stringtokenvalue are inverse on the property's set *)
-Theorem string_value_roundtrip_lemma v : UrlChars v -> stringtokenvalue (hstring v) = Some v /\ stringvalue (hstring v) = Some v.
+(* a value with a backslash is always written quoted (the bare form would start an escape) *)
+Lemma backslash_is_quoted v : In 92%N v -> forbidden v = true.
 Proof.
-  intros Hv. rewrite (hstring_urlchars v Hv).
-  assert (Hb : ~ In 92%N v) by (intros Hin; apply Hv in Hin; tauto).
-  split; apply unquote_hstring; auto.
+  intros Hin. destruct (forbidden v) eqn:E; [reflexivity|].
+  pose proof (forbidden_false v E _ Hin) as H. rewrite forb_bs in H. discriminate.
 Qed.
